@@ -147,6 +147,19 @@ def scan_items(toks, features):
                     yield (t.text, toks[i + 1:j], i, None, j, start, attrs)
                 i = j + 1
             continue
+        if is_id(t, "const") and i + 2 < n and toks[i + 1].kind == "id" and toks[i + 1].text not in RUST_KEYWORDS \
+                and is_p(toks[i + 2], ":") and not (i > 0 and is_p(toks[i - 1], "*")):
+            # `const NAME: T = EXPR;`
+            j = i + 3
+            while j < n and not is_p(toks[j], ";"):
+                if toks[j].kind == "punct" and toks[j].text in OPEN:
+                    j = match_close(toks, j)
+                j += 1
+            start, attrs = attrs_before(toks, i)
+            if item_enabled(attrs, features):
+                yield ("const", [toks[i + 1]], i, None, j, start, attrs)
+            i = j + 1
+            continue
         if is_id(t, "macro_rules") and i + 2 < n and is_p(toks[i + 1], "!"):
             j = i + 3
             close = match_close(toks, j)
@@ -409,7 +422,7 @@ class Repo:
                 (k, head, kw, bo, bc, st, attrs) = it
                 if kind == "impl" and k == "impl" and keys(head) == want:
                     yield kind, rest, it
-                elif kind in ("fn", "mod", "trait", "struct", "enum") and k == kind and head and head[0].text == rest:
+                elif kind in ("fn", "mod", "trait", "struct", "enum", "const") and k == kind and head and head[0].text == rest:
                     yield kind, rest, it
                 elif kind == "invoke" and k == "invoke" and head[0].text == rest:
                     yield kind, rest, it
